@@ -40,9 +40,6 @@ var realRules = []faultRule{
 	{"makechan", "makechan"},
 	{"integer divide by zero", "int-divide-by-zero"},
 	{"negative shift amount", "negative-shift"},
-	{"send on closed channel", "closed-channel"},
-	{"close of closed channel", "closed-channel"},
-	{"close of nil channel", "nil-channel"},
 	{"reflect:", "reflect"},
 	{"runtime error:", "runtime-other"},
 }
